@@ -356,7 +356,7 @@ import itertools
 D_COUNTS = [1, 2, 5, 40]
 D_TTYPES = ["num", "date", "time", "datetime"]
 D_ARRS = ["distinct", "equal", "unsorted"]
-D_SPANS = ["zero", "ms7", "subsec", "s1", "day", "monthend", "leap", "yearend", "months31", "leapyears", "century"]
+D_SPANS = ["zero", "ms3", "ms7", "subsec", "s1", "day", "monthend", "leap", "yearend", "months31", "leapyears", "century"]
 D_OPTS = ["omitted", "empty", "partial"]
 D_DIRS = ["up", "down", "left", "right"]
 D_ALGS = ["overlap", "simple", "none"]
@@ -374,14 +374,19 @@ def descriptors():
                "cluster": "small"}
 
 
-SPAN_MS = {"zero": 0, "ms7": None, "s1": 1000, "day": 20 * 3600 * 1000, "monthend": None, "leap": None, "yearend": None,
+SPAN_MS = {"zero": 0, "ms3": None, "ms7": None, "s1": 1000, "day": 20 * 3600 * 1000, "monthend": None, "leap": None, "yearend": None,
            "century": None}
 
 
 def concretise(desc, rng):
     n = desc["count"]
     sp = desc["span"]
-    if sp == "ms7":
+    if sp == "ms3":
+        # shorter than the default tick count in milliseconds: one tick per millisecond
+        start = dt.datetime(rng.choice([1999, 2023]), rng.randint(1, 12), rng.randint(1, 28), rng.randint(0, 23), rng.randint(0, 59), 59,
+                            rng.choice([0, 123, 995]) * 1000)
+        span = dt.timedelta(milliseconds=rng.choice([2, 3, 4, 5, 6]))
+    elif sp == "ms7":
         start = dt.datetime(rng.choice([1999, 2023]), rng.randint(1, 12), rng.randint(1, 28), rng.randint(0, 23), 59, 59, 990000)
         span = dt.timedelta(milliseconds=rng.choice([7, 8, 9]))
     elif sp == "monthend":
